@@ -238,17 +238,31 @@ func (n *Native) Run(cases []ReplayCase) (map[int]NativeResult, error) {
 	if err := n.Build(false); err != nil {
 		return nil, err
 	}
-	var normal, risky []ReplayCase
+	var normal, risky, single []ReplayCase
 	for _, c := range cases {
-		if c.Outcome == "budget" {
+		switch {
+		case c.Outcome == "budget":
 			risky = append(risky, c)
-		} else {
+		case c.Outcome != "ok":
+			// counterexamples run in a process of their own: package-level
+			// state left behind by other cases must not influence them
+			single = append(single, c)
+		default:
 			normal = append(normal, c)
 		}
 	}
 	res, err := n.runBatch(normal, 10*time.Minute)
 	if err != nil {
 		return nil, err
+	}
+	for _, c := range single {
+		r, err := n.runBatch([]ReplayCase{c}, time.Minute)
+		if err != nil {
+			return nil, err
+		}
+		for k, v := range r {
+			res[k] = v
+		}
 	}
 	for _, c := range risky {
 		r, err := n.runBatch([]ReplayCase{c}, 5*time.Second)
